@@ -107,7 +107,7 @@ def chosen_process_correspondence(ctx):
     for i in range(ctx.scale(30, 400)):
         L = int(ctx.rng.integers(2, 5))
         procs = lottery.random_processes(ctx.rng, L)
-        nm = NoiseModel([dict(p) for p in procs])
+        nm = NoiseModel(lottery.nm_procs(procs))
         base = random_mps(ctx.rng, L, 3)
         base.tensors[0] = base.tensors[0] * 0.8
         v = dense.mps_dense(base)
@@ -158,7 +158,7 @@ def tree_average(solver, order, L, procs, dt, steps, state_name, J=1.0, g=0.6):
     obs = [Observable(p, q) for q in range(L) for p in "xz"]
     par = AnalogSimParams(obs, elapsed_time=steps * dt, dt=dt, order=order, sample_timesteps=False, show_progress=False,
                           threshold=1e-14, max_bond_dim=16)
-    nm = NoiseModel([dict(p) for p in procs])
+    nm = NoiseModel(lottery.nm_procs(procs))
     H = MPO.ising(L, J, g)
     real_rng = np.random.default_rng
 
@@ -222,6 +222,8 @@ FIXED = [
     dict(L=2, procs=[{"name": "lowering", "sites": [1], "strength": 1.0}, {"name": "pauli_z", "sites": [0], "strength": 0.1}], state="x+"),
     dict(L=2, procs=[{"name": "lowering_two", "sites": [0, 1], "strength": 0.8}, {"name": "pauli_x", "sites": [1], "strength": 0.2}], state="x+"),
     dict(L=3, procs=[{"name": "crosstalk_xy", "sites": [0, 2], "strength": 0.5}, {"name": "raising", "sites": [1], "strength": 0.7}], state="x+"),
+    # a switched-off channel listed among active ones
+    dict(L=2, procs=[{"name": "lowering", "sites": [0], "strength": 0.3}, {"name": "pauli_x", "sites": [0], "strength": 0.0}, {"name": "pauli_z", "sites": [1], "strength": 0.2}], state="x+"),
 ]
 
 
